@@ -17,6 +17,7 @@ import (
 	"strings"
 	"sync"
 	"sync/atomic"
+	"testing"
 	"time"
 
 	"github.com/ethereum/go-ethereum/rlp"
@@ -176,6 +177,33 @@ func world() *shared {
 		sh = s
 	})
 	return sh
+}
+
+// TestMain removes the database directories of nodes that are deliberately never stopped (the
+// shared producer; followers whose manager could not be quiesced): their goroutines may still be
+// running, so the stores stay open and only the files are unlinked when the process ends.
+func TestMain(m *testing.M) {
+	code := m.Run()
+	leakMu.Lock()
+	for _, d := range leakedDirs {
+		_ = os.RemoveAll(d)
+	}
+	leakMu.Unlock()
+	if sh != nil && sh.a != nil && sh.a.Dir != "" {
+		_ = os.RemoveAll(sh.a.Dir)
+	}
+	os.Exit(code)
+}
+
+var (
+	leakMu     sync.Mutex
+	leakedDirs []string
+)
+
+func leakDir(d string) {
+	leakMu.Lock()
+	leakedDirs = append(leakedDirs, d)
+	leakMu.Unlock()
 }
 
 // ---- hashes ----------------------------------------------------------------------------------
